@@ -1202,6 +1202,22 @@ def check_targets(rep, c, r, pool_metas, pool_targets, prof, fixed_f21):
                 if want is not None and r["would"][j] != int(want):
                     viol(rep, "would_enable(%r, %s) of Targets %r is %s, filtering decides %s (%s)" % (tg, LVN[l], disp, bool(r["would"][j]), want, w), c, r, prof)
                 j += 1
+    if has_fields:
+        # "would_enable agrees with actual filtering" where the question would_enable can express exists at all: it is asked
+        # about (target, level) only, i.e. about metadata WITHOUT fields; a directive with a field list never matches such
+        # metadata, whatever else the string contains.  Compared with what the very same Targets value decided, in this run, for
+        # the field-less pool metadata of that target and level (no specification in between).  (Seeded C11-I.)
+        tix = {tg: k for k, tg in enumerate(pool_targets)}
+        for i, m in enumerate(pool_metas):
+            if m.get("f") or m.get("kind") != "e" or m["t"] not in tix or not (1 <= m["l"] <= 5):     # events only: for SPAN metadata the code skips the field-name test (C11_would_enable_fieldless_event)
+                continue
+            j = tix[m["t"]] * 5 + (m["l"] - 1)
+            rep.evaluations += 1
+            rep.nontrivial.add(("tw", c.get("s", str(c.get("entries"))), i))
+            if r["would"][j] != r["en_sub"][i]:
+                viol(rep, "would_enable(%r, %s) of Targets %r is %s, but the same filter %s a field-less %s with that target and level" % (
+                    m["t"], LVN[m["l"]], disp, bool(r["would"][j]), "enables" if r["en_sub"][i] else "rejects",
+                    "event"), c, r, prof, meta=m)
     # round trip (documented grammar only: no field lists, no '[{' inside a bare target)
     if st is not None or (not has_fields and "[{" not in disp):
         if r["rt"] != 1:
